@@ -996,6 +996,25 @@ func (h *NtfnsHandler) asyncImport(walletId string) (finish bool, err error) {
 			heightAdded[height] = added
 		}
 
+		// The handler is parked, but the blocks above were read from the node as it is now:
+		// it may already be on a chain the handler has not been told about (announcements
+		// still queued). Credits of such blocks are never rolled back if the node returns to
+		// the handler's chain before the handler runs. Commit only what was read from the
+		// chain the handler is synced to; otherwise the worker retries the batch later.
+		syncedStop, err := h.walletMgr.syncStore.SyncedBlock(dbtx, stop)
+		if err != nil {
+			return err
+		}
+		headerStop, err := fetcher.FetchBlockHeaderByHeight(stop)
+		if err != nil {
+			return err
+		}
+		if syncedStop == nil || headerStop == nil || headerStop.BlockHash() != syncedStop.Hash {
+			logging.CPrint(logging.INFO, "chain read by asyncImport is not the synced chain, retry later",
+				logging.LogFormat{"height": stop, "walletId": addrmgr.Name()})
+			return ErrImportingContinuable
+		}
+
 		ws.SyncedHeight = stop
 		if stop == h.bestBlock.Height {
 			ws.SyncedHeight = txmgr.WalletSyncedDone
